@@ -90,6 +90,14 @@ func fn(c *report.Ctx, pkg, name string) *ssa.Function {
 	}
 	f := c.P.Func(pkg, name)
 	if f == nil || len(f.Blocks) == 0 {
+		// a handler type replaced by a function: NewXHandler returns http.HandlerFunc(closure) instead of &xHandler{..};
+		// the closure (with the function it calls absorbed) is the handler's ServeHTTP
+		if g := handlerFuncOfCtor(c, pkg, name); g != nil {
+			c.Analysed("functions", 1)
+			return g
+		}
+	}
+	if f == nil || len(f.Blocks) == 0 {
 		c.Unresolved("ANCHOR", pkg+"."+name, "function %s.%s not found in the loaded program (renamed, removed, or turned into a promoted method)", pkg, name)
 		return nil
 	}
@@ -408,4 +416,41 @@ func newWire(c *report.Ctx, followFields map[string]bool, through map[string]int
 		},
 		Through: through,
 	}
+}
+
+// handlerFuncOfCtor: name is "(*xHandler).ServeHTTP" and the type is gone; if NewXHandler exists and returns a
+// function value converted to http.HandlerFunc, that function is returned.
+func handlerFuncOfCtor(c *report.Ctx, pkg, name string) *ssa.Function {
+	if !strings.HasPrefix(name, "(*") || !strings.HasSuffix(name, ").ServeHTTP") {
+		return nil
+	}
+	t := name[2 : len(name)-len(").ServeHTTP")]
+	if t == "" || c.P.Named(pkg, t) != nil {
+		return nil
+	}
+	ctor := c.P.Func(pkg, "New"+strings.ToUpper(t[:1])+t[1:])
+	if ctor == nil {
+		return nil
+	}
+	var got *ssa.Function
+	n := 0
+	for _, e := range an.Exits(ctor) {
+		if len(e.Vals) != 1 {
+			continue
+		}
+		n++
+		switch x := an.Strip(e.Vals[0], true).(type) {
+		case *ssa.MakeClosure:
+			got, _ = x.Fn.(*ssa.Function)
+		case *ssa.Function:
+			got = x
+		}
+	}
+	if n != 1 || got == nil || len(got.Blocks) == 0 {
+		return nil
+	}
+	if sig := got.Signature; sig.Params().Len() != 2 {
+		return nil
+	}
+	return got
 }
